@@ -165,7 +165,7 @@ def search(res, tier, boost=False):
     n_mesh = (2 if tier == 'quick' else 10) * (2 if boost else 1)
     for mi in range(n_mesh):
         cname = curves[mi % len(curves)]
-        gamma, mesh = random_real_mesh(rng, cname, rng.randint(4, 14), time_grid=rng.choice([[0, 1], [0, 0.5, 1]]))
+        gamma, mesh = random_real_mesh(rng, cname, rng.randint(4, 14), time_grid=rng.choice([[0, 1], [0, 0.5, 1], [0, 1, 3], [0, 0.25, 1, 1.5]]))   # incl. slabs of different lengths
         ops = RealOps(gamma, mesh)
         elems = list(mesh.leaf_elements)
         # matrix: block lower triangular, rows = test
